@@ -17,6 +17,8 @@ def setup():
     U = world.mod("mokapot.utils")
     T = world.mod("mokapot.tabular_data")
     Q = world.mod("mokapot.qvalues")
+    for name in ("calibrate_scores", "update_labels", "_predict", "_fit_model", "PercolatorModel"):
+        ORIG.setdefault(name, B.__dict__[name])  # as imported, before any harness rebinds them
     world.rebind(B, np=symnp, Parallel=stubs.SParallel, delayed=stubs.sdelayed)
     world.rebind(D, np=symnp, pd=sympd, crc32=s_crc32, str=s_str, hash=s_hash)
     world.rebind(P, pd=sympd, Parallel=stubs.SParallel, delayed=stubs.sdelayed)
@@ -31,6 +33,7 @@ def setup():
 
 _str = str
 HASHES = {}
+ORIG = {}
 
 
 def s_str(x):
